@@ -89,7 +89,7 @@ class VExt(Extender):
 class _LogHandler(logging.Handler):
     """Turns `logging.error("VExt <id> <msg>")` of the composite's wrapper into an `L<id>` event."""
 
-    PAT = re.compile(r"^VExt (\d+) boom-")
+    PAT = re.compile(r"^VExt (\d+) ")
 
     def emit(self, rec: logging.LogRecord) -> None:
         try:
@@ -113,14 +113,18 @@ class _Logging:
         self.prev_disable = self.root.manager.disable
         self.root.addHandler(self.h)
         logging.disable(logging.WARNING)
+        # mloda's thread_worker re-raises inside the worker thread; keep those tracebacks off stderr
+        self.prev_hook = threading.excepthook
+        threading.excepthook = lambda args: None
         return self
 
     def __exit__(self, *a: Any) -> None:
         self.root.removeHandler(self.h)
         logging.disable(self.prev_disable)
+        threading.excepthook = self.prev_hook
 
 
-def make_wrapped(outs: List[Optional[int]], tag: str = "C") -> Any:
+def make_wrapped(outs: List[Optional[int]], tag: str = "C", as_bool: bool = False) -> Any:
     """Wrapped function: k-th call returns outs[k] (last entry repeats); None = raises.  Appends `C` to the sink."""
     state = {"k": 0}
 
@@ -132,7 +136,7 @@ def make_wrapped(outs: List[Optional[int]], tag: str = "C") -> Any:
         o = outs[k] if k < len(outs) else outs[-1]
         if o is None:
             raise ValueError(f"wrapped-raises-{k}")
-        return o
+        return True if as_bool else o  # validate_* must return None/True, anything else is a validation failure
 
     func.state = state  # type: ignore[attr-defined]
     return func
@@ -149,7 +153,7 @@ def call_outcome(fn: Any) -> Tuple[Optional[Any], Optional[str]]:
 # oracle from the property text (independent of the Lean model)
 
 
-def oracle_trace(exts: List[Dict[str, Any]], trace: List[str], chain_protected: bool) -> List[str]:
+def oracle_trace(exts: List[Dict[str, Any]], trace: List[str], chain_protected: bool, wrapped_ok: bool = True) -> List[str]:
     """`exts`: the extenders that declare the kind of this wrapped call ({"id","prio","beh"}); `trace`: observed events of
     ONE wrapped call (E<id> X<id> L<id> C).  `chain_protected`: >= 2 matching extenders (the property's "chain").
     Returns the list of broken clauses."""
@@ -181,7 +185,7 @@ def oracle_trace(exts: List[Dict[str, Any]], trace: List[str], chain_protected: 
         for e in raisers:
             if f"L{e['id']}" not in trace:
                 bad.append(f"raising extender {e['id']} was not logged")
-    if not raisers and "C" in trace:
+    if not raisers and "C" in trace and wrapped_ok:
         # pure pass-through: strict nesting enter(asc) - call - exit(desc), wrapped function called once
         if trace.count("C") == 1:
             c = trace.index("C")
@@ -276,7 +280,7 @@ def check_composite(ctx: Ctx, cases: List[Dict[str, Any]]) -> None:
                 ctx.disagree("composite", c, impl, o)
         # oracle; `_CompositeExtender` always protects (n >= 1 is a chain as far as this class is concerned)
         if n >= 1:
-            bad = oracle_trace(c["exts"], impl["trace"], chain_protected=True) if n >= 2 else oracle_trace(c["exts"], impl["trace"], chain_protected=False)
+            bad = oracle_trace(c["exts"], impl["trace"], chain_protected=(n >= 2), wrapped_ok=c["w"][0] is not None)
             rb, cls = oracle_result(c["exts"], c["w"], (impl["out"], impl["err"]), impl["calls"])
             for b in bad:
                 ctx.violation("composite", c, "_CompositeExtender: " + b, impl["trace"])
@@ -351,7 +355,7 @@ def run_cfw_case(case: Dict[str, Any]) -> Dict[str, Any]:
         else:
             s = {"kind": "other:" + type(sel).__name__}
         outs = case["w"][hk]
-        func = make_wrapped(outs)
+        func = make_wrapped(outs, as_bool=(hk != CALC))
         _StubFG.funcs = {hk: func}
         _SINK = []
         try:
@@ -429,7 +433,7 @@ def check_cfw(ctx: Ctx, cases: List[Dict[str, Any]]) -> None:
                     ctx.disagree("cfw", {"case": c, "hook": hk, "order": im["order"]}, h, {"res": mres, "sel": msel})
             # oracle
             decl = [{"id": e["id"], "prio": im["prio"][str(e["id"])], "beh": e["beh"]} for e in c["exts"] if hk in e["wraps"]]
-            bad = oracle_trace(decl, h["trace"], chain_protected=len(decl) >= 2)
+            bad = oracle_trace(decl, h["trace"], chain_protected=len(decl) >= 2, wrapped_ok=c["w"][hk][0] is not None)
             out_for_oracle = h["out"] if hk == CALC else (1 if h["err"] is None else None)
             rb, cls = oracle_result(decl, c["w"][hk], (out_for_oracle, h["err"]), h["calls"])
             for b in bad:
@@ -497,7 +501,7 @@ def _stateful_after(cls: Any, data: Any, features: Any, result: Any) -> Any:
     return F.from_columns({c: [None if v is None else v + k for v in vs] for c, vs in cols.items()}, F._fw_of(features))
 
 
-def gen_plan(ctx: Ctx, stateful: bool = False) -> Dict[str, Any]:
+def gen_plan(ctx: Ctx, stateful: bool = False, mp: bool = False) -> Dict[str, Any]:
     rng = ctx.rng
     nlin = rng.choice([1, 1, 2])
     lineages = []
@@ -505,6 +509,10 @@ def gen_plan(ctx: Ctx, stateful: bool = False) -> Dict[str, Any]:
         depth = rng.choice([1, 2, 2, 3]) if not stateful else rng.choice([0, 1])
         nrows = rng.randint(1, 4)
         fw = rng.choice(["pa", "pa", "pd", "py"])
+        # direct transformer pairs only (chains are C14's subject); in MULTIPROCESSING a transform step *from* a non-Arrow
+        # framework fails on the unchanged tree (the downloaded pa.Table is fed to the pandas->arrow hop: C14 finding), so
+        # those plans would only produce failing baselines here
+        switchable = {"pa": ["pd", "py"], "pd": [] if mp else ["pa"], "py": [] if mp else ["pa"]}
         cols = {f"a{li}": [rng.randint(-5, 9) for _ in range(nrows)], f"b{li}": [rng.randint(-5, 9) for _ in range(nrows)]}
         steps = []
         prev = [f"a{li}", f"b{li}"]
@@ -518,7 +526,7 @@ def gen_plan(ctx: Ctx, stateful: bool = False) -> Dict[str, Any]:
                 parents = [prev[-1]]
                 expr = [rng.choice(["add", "mul"]), ["col", parents[0]], ["const", rng.randint(1, 3)]]
             if rng.random() < 0.2 and not stateful:
-                cur_fw = rng.choice([f for f in ["pa", "pd", "py"] if f != cur_fw])
+                cur_fw = rng.choice(switchable[cur_fw] or [cur_fw])
             steps.append({"feature": name, "parents": parents, "expr": expr, "fw": cur_fw})
             prev = [name]
         lineages.append({"root_cols": cols, "root_fw": fw, "steps": steps})
@@ -630,7 +638,7 @@ def run_plan(plan: Dict[str, Any], mode: str, exts: Optional[List[Dict[str, Any]
         )
         out: Dict[str, Any] = {"ok": True, "tables": sorted((F.to_columns(r) for r in res), key=lambda t: sorted(t.keys()))}
     except Exception as e:  # noqa: BLE001
-        out = {"ok": False, "err": (repr(e) + str(e))[-400:]}
+        out = {"ok": False, "err": (repr(e) + str(e))[-int(os.environ.get("VERIF_ERRLEN", "400")):]}
     finally:
         os.environ.pop(F.LOG_ENV, None)
     events = []
@@ -842,7 +850,7 @@ def gen_e2e_cases(ctx: Ctx, n: int) -> List[Dict[str, Any]]:
     modes += ["SYNC"] * max(1, n - len(modes))
     for i, mode in enumerate(modes):
         r = ctx.rng.random()
-        plan = gen_plan(ctx)
+        plan = gen_plan(ctx, mp=(mode == "MULTIPROCESSING"))
         if r < 0.35:
             exts = gen_exts(ctx, allow_raise=False)
         elif r < 0.93:
@@ -884,7 +892,7 @@ def run(ctx: Ctx) -> None:
             check_cfw(ctx, cases[i : i + 20000])
         with tempfile.TemporaryDirectory(prefix="c20_") as d:
             try:
-                check_e2e(ctx, gen_e2e_cases(ctx, ctx.budget(60, 1000)), d)
+                check_e2e(ctx, gen_e2e_cases(ctx, ctx.budget(100, 1000)), d)
             finally:
                 stop_flight_server()
     ctx.exhaustive = True
